@@ -625,3 +625,175 @@ class SplitterSources(Contract):
 
 
 NATIVE = []
+
+
+# ----------------------------------------------------------------------------
+# the databases reach the disk: one file per database, named after its own key; loading several input FASTAs
+# ----------------------------------------------------------------------------
+class _DbKey18:
+    """the key of database i (opaque text)"""
+    def __init__(self, i):
+        self.i = i
+
+    def sym_str(self, I):
+        return self
+
+
+class _PrefixName18:
+    def sym_str(self, I):
+        return self
+
+
+class _DbItems18:
+    """databases.items(): pairs (key k, database k) for k < n; keys are distinct (dict)"""
+    def __init__(self, st):
+        self.st = st
+
+    def sym_method(self, I, name, a, k):
+        if name == 'items' and not a:
+            zz = lambda i: i if is_z3(i) else z3.IntVal(i)
+            return FnView(self.st.n, lambda i: (_DbKey18(zz(i)), SymObj('Database18', i=zz(i))), tag='databases')
+        raise Unsupported(f'databases.{name}')
+
+
+class _Dir18:
+    def __init__(self, st):
+        self.st = st
+
+    def sym_method(self, I, name, a, k):
+        if name == 'mkdir':
+            self.st.log.append(('mkdir', None, dict(k)))
+            return None
+        raise Unsupported(f'output_dir.{name}')
+
+    def sym_binop(self, I, op, other, swapped=False):
+        if op == '/' and not swapped:
+            return SymObj('OutPath18', name=other)
+        raise Unsupported('path arithmetic')
+
+
+@register
+class SplitterWrite(Contract):
+    """PeptidePoolSplitter.write(output_prefix): the directory of the prefix is made if missing (an existing one is fine); every database is written exactly
+    once, to <directory>/<name of the prefix>_<its own key>.fasta - a file name that contains the key of that database and of no other - and nothing else is
+    written"""
+    path, qualname, props = SPL18, 'PeptidePoolSplitter.write', ('C18',)
+    assumptions = ('assumed: pathlib.Path(prefix).parent / .name split the prefix into directory and file-name part; an f-string containing the key is injective in the key',)
+
+    def setup(self, I):
+        st = types.SimpleNamespace(log=[])
+        st.n = I.e.int('n_databases')
+        I.e.assume(st.n >= 0)
+        st.prefix_name = _PrefixName18()
+        st.splitter = SymObj('PeptidePoolSplitter', databases=_DbItems18(st), peptides=None, order={}, label_map=None, group_map={}, sources=set())
+        st.args = [st.splitter, OpaqueStr(['out/prefix'])]
+        self._cur = st
+        return st
+
+    @property
+    def models(self):
+        c = self
+
+        def inst(reg):
+            reg.ctor_('Path', lambda I, a, k: SymObj('PathOf18', parent=_Dir18(c._cur), name=c._cur.prefix_name))
+            reg.ext_('pathlib.Path', lambda I, a, k: SymObj('PathOf18', parent=_Dir18(c._cur), name=c._cur.prefix_name))
+            reg.method_('Database18', 'write', lambda I, o, a, k: c._cur.log.append(('write', o, a[0] if a else None)))
+        return (inst,)
+
+    def head(self, I, env, k):
+        self._cur.mark = len(self._cur.log)
+
+    def step(self, I, env, k):
+        st = self._cur
+        new = st.log[st.mark:]
+        ok = len(new) == 1 and new[0][0] == 'write' and isinstance(new[0][2], SymObj) and new[0][2].cls == 'OutPath18'
+        if not ok:
+            return [('database-k-written-once', False)]
+        _, db, path = new[0]
+        nm = path.fields['name']
+        parts = list(nm.parts) if isinstance(nm, OpaqueStr) else []
+        keys = [p for p in parts if isinstance(p, _DbKey18)]
+        texts = ''.join(p for p in parts if isinstance(p, str))
+        return [('database-k-is-the-one-written', db.fields['i'] == k),
+                ('its-file-name-contains-its-own-key-and-no-other-and-ends-with-.fasta', z3.And(keys[0].i == k, z3.BoolVal(len(keys) == 1 and texts.endswith('.fasta'))) if keys else z3.BoolVal(False))]
+
+    @property
+    def loops(self):
+        return {0: LoopSpec(inv=lambda I, env, k: [], on_head=self.head, step=self.step, target_after='unknown',
+                            on_break=lambda I, env, k: [('every-database-is-visited', False)],
+                            on_exit=lambda I, env, n: [('all-databases-were-written', n == self._cur.n)])}
+
+    def post_return(self, I, st, ret):
+        mk = [x for x in st.log if x[0] == 'mkdir']
+        I.e.prove('C18/write/the-directory-is-made-once-and-an-existing-one-is-accepted', z3.BoolVal(len(mk) == 1 and mk[0][2].get('exist_ok') is True and st.log and st.log[0][0] == 'mkdir'))
+
+
+class _LoadDatabase(Contract):
+    """PeptidePoolSplitter.load_database(handle): the first FASTA loaded becomes the pool as it is; of every further FASTA each peptide is added to the
+    pool exactly once, in file order, without any size / canonical filtering (skip_checking) - so the pool is the union of the input files, equal sequences
+    merged by add_peptide (under its own contract)"""
+    path, qualname, props = SPL18, 'PeptidePoolSplitter.load_database', ('C18',)
+    first = True
+
+    def name(self):
+        return f'{self.path}:{self.qualname}[{"first file" if self.first else "a further file"}]'
+
+    def setup(self, I):
+        st = types.SimpleNamespace(log=[])
+        st.n = I.e.int('n_peptides_in_the_file')
+        I.e.assume(st.n >= 0)
+        zz = lambda i: i if is_z3(i) else z3.IntVal(i)
+        st.loaded = SymObj('LoadedPool18', peptides=FnView(st.n, lambda i: SymObj('Pep18', i=zz(i)), tag='peptides of the file'))
+        st.old = None if self.first else SymObj('OldPool18')
+        st.handle = SymObj('Handle18')
+        st.splitter = SymObj('PeptidePoolSplitter', databases={}, peptides=st.old, order={}, label_map=None, group_map={}, sources=set())
+        st.args = [st.splitter, st.handle]
+        self._cur = st
+        return st
+
+    @property
+    def models(self):
+        c = self
+
+        def inst(reg):
+            def load(I, a, k):
+                c._cur.log.append(('load', a[-1] if a else None, None))
+                return c._cur.loaded
+            reg.method_('VariantPeptidePool', 'load', lambda I, o, a, k: load(I, a, k))
+            reg.func_(VPP18, 'VariantPeptidePool.load', load)
+            reg.method_('OldPool18', 'add_peptide', lambda I, o, a, k: c._cur.log.append(('add', list(a), dict(k))))
+            reg.protocol_('OldPool18', '__bool__', lambda I, o: True)
+            reg.protocol_('OldPool18', '__len__', lambda I, o: I.e.int('old_pool_size'))
+        return (inst,)
+
+    def head(self, I, env, k):
+        self._cur.mark = len(self._cur.log)
+
+    def step(self, I, env, k):
+        st = self._cur
+        new = st.log[st.mark:]
+        ok = len(new) == 1 and new[0][0] == 'add' and new[0][1] and isinstance(new[0][1][0], SymObj) and new[0][1][0].cls == 'Pep18'
+        if not ok:
+            return [('peptide-k-added-once', False)]
+        a, kw = new[0][1], new[0][2]
+        skip = kw.get('skip_checking', a[2] if len(a) > 2 else False)
+        return [('peptide-k-added-once', a[0].fields['i'] == k), ('added-without-filtering', z3.BoolVal(skip is True))]
+
+    @property
+    def loops(self):
+        return {0: LoopSpec(inv=lambda I, env, k: [], on_head=self.head, step=self.step, target_after='unknown',
+                            on_break=lambda I, env, k: [('every-peptide-is-visited', False)],
+                            on_exit=lambda I, env, n: [('all-peptides-of-the-file-were-added', n == self._cur.n)])}
+
+    def post_return(self, I, st, ret):
+        loads = [x for x in st.log if x[0] == 'load']
+        I.e.prove('C18/load_database/the-given-handle-is-loaded-once', z3.BoolVal(len(loads) == 1 and loads[0][1] is st.handle))
+        now = st.splitter.fields['peptides']
+        if self.first:
+            I.e.prove('C18/load_database/the-first-file-becomes-the-pool', z3.BoolVal(now is st.loaded and not [x for x in st.log if x[0] == 'add']))
+        else:
+            I.e.prove('C18/load_database/the-pool-of-the-earlier-files-is-kept', z3.BoolVal(now is st.old))
+
+
+register(type('LoadDatabaseFirst', (_LoadDatabase,), dict(first=True, __doc__=_LoadDatabase.__doc__)))
+register(type('LoadDatabaseFurther', (_LoadDatabase,), dict(first=False, __doc__=_LoadDatabase.__doc__)))
